@@ -50,10 +50,11 @@ CHECKS = {
             "C17_literal_congruence (comparing any value with two ==-equal literals gives the same answer: numbers by exact value, arrays item-wise, dicts order-insensitively) and "
             "C17_equal_same_verdict: two ==-equal reference-free elements (C03's fragment, well-formed literals, no float multipleOf parameter; executable EqFrag.goodb, proved sound) serialize to "
             "documents with the same Draft-6 meaning on every value and accept the same values whenever neither call crashes - dict-valued keywords in any order, thresholds as int or the equal float.  "
-            "The statement is FALSE without the multipleOf premise (C17_interchangeable_refuted: multipleOf 2 vs 2.0, finding K17).  Object classes (where == feeds de-duplication and "
-            "_from_definitions) are outside the theorem: there equal pairs are compared on verdicts and serialization by the oracle.  Equality.v is tied to the code by evaluating elem_eq in Coq on "
-            "every generated pair (the run counts the equal pairs the theorem applies to).",
-            "reflexive/symmetric full; interchangeable: proved for reference-free elements without float multipleOf, refuted in general (finding K17), object classes by oracle + correspondence"),
+            "The statement is FALSE without the multipleOf premise (C17_interchangeable_refuted: multipleOf 2 vs 2.0, finding K17).  Trees with object classes: C17_equal_same_verdict_classes "
+            "(equal trees - class names are not compared - accept the same values; through the in-place documents of Resolve.ser_inl and C03_inplace_meaning; premise ClsFrag.goodcb, proved sound; "
+            "C17_classes_inhabited).  What == feeds (parser de-duplication, _from_definitions) is outside the theorems: oracle.  Equality.v is tied to the code by evaluating elem_eq in Coq on "
+            "every generated pair (the run counts the equal pairs each theorem applies to).",
+            "reflexive/symmetric full; interchangeable: proved for reference-free elements and class trees without float multipleOf, refuted in general (finding K17); uses of == by the parser/serializer by oracle + correspondence"),
     "C08": ("Coq theorem over all bind histories (re-binding well-bound properties is the identity; every prefix too) + write set regenerated from /repo and checked against the audited one + before/after identity-dump oracle + _Property.bind correspondence",
             "C08_pure/C08_repeatable: from a well-bound store any finite sequence of the binds that calls perform leaves every shared property cell unchanged; "
             "C08_writes_audited: every store statement in statham/schema (outside the parser), as re-read from /repo by the translator on each run, is an audited "
